@@ -268,7 +268,8 @@ fn token_offsets(text: &str) -> Vec<(usize, usize)> {
 /// "Syntax Error at L:C : text :" -> (L, C, text)
 fn parse_syntax_error(msg: &str) -> Option<(usize, usize, String)> {
     // the driver's own report of a jump to a label that is defined nowhere has the same three parts
-    let rest = match msg.split("Syntax Error at ").nth(1) {
+    // (the headline in either case)
+    let rest = match msg.split("Syntax Error at ").nth(1).or_else(|| msg.split("Syntax error at ").nth(1)) {
         Some(r) => r,
         None => msg.split(" used but not defined at ").nth(1)?,
     };
